@@ -13,15 +13,21 @@ macro_rules! cfg_rug {
 #[path = "/repo/mithril-stm/src/proof_system/concatenation/eligibility.rs"]
 mod elig;
 
+mod alloc_track;
 mod blsx;
 mod c01;
 mod c02;
+mod c05;
 mod c06;
 mod c08;
 mod c09;
+mod entry;
 mod wire;
 mod fixtures;
 mod lottery_ref;
+
+#[global_allocator]
+static GLOBAL: alloc_track::Tracking = alloc_track::Tracking;
 
 fn main() {
     let args = vcore::parse_args();
@@ -29,6 +35,7 @@ fn main() {
     let code = match which.as_str() {
         "C01" => c01::run(&args),
         "C02" => c02::run(&args),
+        "C05" => c05::run(&args),
         "C06" => c06::run(&args),
         "C08" => c08::run(&args),
         "C09" => c09::run(&args),
